@@ -69,6 +69,7 @@ var c16ExtraDirs = []string{"./g", "../h", "./i j"}
 type c16Round struct {
 	setter     string
 	preCleanup bool
+	preGo      string // go version set on the same structure before the bulk call ("" = none)
 	reqs       []refmodfile.Req
 	dirs       []string
 }
@@ -164,6 +165,11 @@ func c16Case(c *mon.Ctx, setter, id string) {
 			rounds[i].setter = gen.Pick(r, []string{"SetRequire", "SetRequireSeparateIndirect"})
 		}
 		rounds[i].preCleanup = r.IntN(2) == 0
+		if !work && r.IntN(4) == 0 {
+			// the language version is changed on the same structure first: the block orders are those of
+			// the version the file then declares
+			rounds[i].preGo = gen.Pick(r, []string{"1.20", "1.21", "1.20.5", "1.21.0", "1.22rc1", "1.9", "1.100"})
+		}
 		rounds[i].reqs, rounds[i].dirs = c16Request(r, work)
 	}
 	nRounds := 1
@@ -220,6 +226,9 @@ func c16RoundRun(c *mon.Ctx, id string, ef *gen.EditFile, ri int, rd c16Round, m
 	if rd.preCleanup {
 		desc = "Cleanup;" + desc
 	}
+	if rd.preGo != "" {
+		desc = "AddGoStmt(" + rd.preGo + ");" + desc
+	}
 	*log = append(*log, desc)
 
 	// facts about the starting file of this round, taken before the call
@@ -253,6 +262,14 @@ func c16RoundRun(c *mon.Ctx, id string, ef *gen.EditFile, ri int, rd c16Round, m
 		wf2, err = modfile.ParseWork(name, out, nil)
 		effect, _ = model.SetUse(rd.dirs)
 	default:
+		if rd.preGo != "" {
+			if gerr := mf.AddGoStmt(rd.preGo); gerr != nil {
+				c.Inconclusive(fmt.Sprintf("AddGoStmt(%s) refused (%s): %v", rd.preGo, id, gerr))
+				return "", false
+			}
+			model.AddGoStmt(rd.preGo)
+			c.Class("pre-go:" + rd.preGo)
+		}
 		if rd.preCleanup {
 			mf.Cleanup()
 		}
